@@ -60,6 +60,33 @@ def split_table(syn):
     return f, m, table
 
 
+def take_distinct_on_shield(syn, table, rep):
+    # Take followed by DistinctOn: LIMIT is applied after DISTINCT ON, so they must not share a SELECT. The table has no such entry;
+    # what separates them is the Sort that preprocess::distinct emits in front of every DistinctOn (Sort IS in the row of Take).
+    take = table.get("Take", {"always": set(), "everything": False})
+    if not (take["everything"] or "DistinctOn" in take["always"]):
+        d = syn.fn("pq::preprocess::distinct", crate="prqlc")
+        n_sites, bad_sites = 0, []
+        for blk in walk(d["body"]):
+            if blk.get("k") != "block":
+                continue
+            st = blk["s"]
+            for i, x in enumerate(st):
+                if x.get("k") == "mcall" and x["m"] == "push" and x["a"] and show(x["a"][0]).startswith("SqlTransform::DistinctOn"):
+                    n_sites += 1
+                    prev = st[i - 1] if i > 0 else None
+                    okp = prev is not None and prev.get("k") == "mcall" and prev["m"] == "push" and show(prev["r"]) == show(x["r"]) and prev["a"] and show(prev["a"][0]).startswith("SqlTransform::Sort")
+                    if not okp:
+                        bad_sites.append(x["l"])
+        shielded = n_sites >= 1 and not bad_sites and "Sort" in take["always"]
+        rep.check(shielded, "req:Take:DistinctOn",
+                  "`Take` followed by `DistinctOn` stays in one SELECT unless something separates them: the row of Take does not list DistinctOn, and "
+                  f"preprocess::distinct does not unconditionally push a Sort right before the DistinctOn at line(s) {bad_sites} "
+                  "(`SELECT DISTINCT ON (k) * FROM a LIMIT 5 OFFSET 2` applies the LIMIT after de-duplication)", file=d["file"], line=(bad_sites or [d["l"]])[0], fn=d["path"])
+    else:
+        rep.ok("req:Take:DistinctOn")
+
+
 def r1(ctx, rep):
     rep.rule("C01.R1", "clause-order table: a transform is split from followers that SQL would evaluate before it", floor=100)
     O = ora("sql_clause_order.json")
@@ -84,6 +111,7 @@ def r1(ctx, rep):
                       f"`{t}` followed by `{follower}` stays in one SELECT, but SQL evaluates {follower} before {t} ({O['why'].get(t, '')}): "
                       f"the row of {t} lists only {sorted(row['always'])}",
                       file=f["file"], line=row["line"], fn=f["path"])
+    take_distinct_on_shield(syn, table, rep)
     # the accumulation of names: a transform that is kept is recorded
     txt = show_stmts(f["body"], maxdepth=10)
     rep.check("following.insert(transform.as_str().to_string())" in show_stmts(f["body"], maxdepth=12) or any(
